@@ -128,7 +128,9 @@ def run(chk, replay_case=None):
             chk.notes.append("stale finding " + f["id"])
     infra = [c for c in cases if c.get("infra")]
     mism = vlib.eval_mismatches("C06", HEADER, [case_term(c) for c in cases], case_type="fcase", shard=400)
-    oracle_fail = sorted([i for i, c in enumerate(cases) if c["oracle"]], key=lambda i: size(cases[i]))
+    # cases the harness itself places inside a listed finding (but the model, on the regenerated tables, does not)
+    # are reported last: the plain ones explain a broken property better
+    oracle_fail = sorted([i for i, c in enumerate(cases) if c["oracle"]], key=lambda i: (bool(cases[i].get("pred")), size(cases[i])))
     corr_fail = sorted([i for i in mism if not cases[i]["oracle"]], key=lambda i: size(cases[i]))
     seen = set()
     for i in oracle_fail:
